@@ -724,14 +724,36 @@ func AfterFuncTask(site string, rec *TimerRec, f func()) func() {
 	s.mu.Unlock()
 	raceEnable()
 	return func() {
-		raceDisable()
-		s.mu.Lock()
-		s.liveTasks++
-		rec.Fired = true
-		s.mu.Unlock()
-		raceEnable()
+		s.timerFired(rec)
 		s.taskMain(t, f)
 	}
+}
+
+//go:norace
+func (s *Sim) timerFired(rec *TimerRec) {
+	raceDisable()
+	s.mu.Lock()
+	s.liveTasks++
+	rec.Fired = true
+	s.mu.Unlock()
+	raceEnable()
+}
+
+// IsAncestor reports whether task anc is t or one of its ancestors.
+//
+//go:norace
+func IsAncestor(anc, t int) bool {
+	s := S
+	if s == nil {
+		return false
+	}
+	for t >= 0 && t < s.ntasks {
+		if t == anc {
+			return true
+		}
+		t = s.tasks[t].Parent
+	}
+	return false
 }
 
 // Run is the scheduler loop. It returns when every task has exited, or the
@@ -877,7 +899,9 @@ func (s *Sim) idle(d time.Duration) bool {
 		return false
 	default:
 	}
+	raceEnable() // timer creation synchronises internally (sync.Once): must not happen with sync events ignored
 	tm := time.NewTimer(d)
+	raceDisable()
 	select {
 	case <-s.arrive:
 		tm.Stop()
